@@ -193,7 +193,7 @@ PROPS['C09'] = dict(
                        'all_functions_effect_free', 'functions_count', 'anchors_analysed',
                        'library_history_independent', 'library_schedule_independent'],
     needs_driver=False,
-    correspondence='corr_purity.py',
+    correspondence='corr_purity.py', corr_independent=True,   # runs the real code and effects.py itself: no Lean build needed
     rule='static: every syntactic write in the six library modules, classified by root, regenerated from /repo on each run '
          '(translator/effects.py). dynamic tie + search (harness/corr_purity.py): random call sequences of length 1..50 '
          'over the public API (60 entries), deep bitwise snapshots of 173 module-level constants and of every mutable '
